@@ -4,6 +4,7 @@ package service
 
 import (
 	"errors"
+	"sync"
 	"time"
 
 	"github.com/cuteLittleDevil/go-jt808/protocol/jt808"
@@ -165,7 +166,26 @@ type c11Ev struct {
 	key  string
 }
 
-type c11Log struct{ evs []c11Ev }
+// c11Log is shared by the callbacks of all connections of a harness, which the real code calls from
+// each connection's own reader goroutine: natively (schedule replay) these run in parallel between
+// two gates, hence the lock (a no-op in the cooperative executor).
+type c11Log struct {
+	mu  sync.Mutex
+	evs []c11Ev
+}
+
+func (l *c11Log) add(e c11Ev) {
+	l.mu.Lock()
+	l.evs = append(l.evs, e)
+	l.mu.Unlock()
+}
+
+// snapshot: the events so far (taken by the harness after vrt_Quiesce)
+func (l *c11Log) snapshot() []c11Ev {
+	l.mu.Lock()
+	defer l.mu.Unlock()
+	return append([]c11Ev{}, l.evs...)
+}
 
 type c11Rec struct {
 	vRecorder
@@ -178,9 +198,9 @@ func (r *c11Rec) OnJoinEvent(msg *Message, key string, err error) {
 	if err != nil {
 		k = 1
 	}
-	r.log.evs = append(r.log.evs, c11Ev{r.id, k, key})
+	r.log.add(c11Ev{r.id, k, key})
 }
-func (r *c11Rec) OnLeaveEvent(key string) { r.log.evs = append(r.log.evs, c11Ev{r.id, 2, key}) }
+func (r *c11Rec) OnLeaveEvent(key string) { r.log.add(c11Ev{r.id, 2, key}) }
 
 // VerifC11Schedules: connection A owns a key; then, in every order and - within the deviation
 // bound - overlapping at every channel, socket and go operation of the real code: A's peer
@@ -215,7 +235,8 @@ func VerifC11Schedules() {
 	vrt_ConnPushRead(a.conn, (&vFrame{id: 0x0002, phone: phone, serial: 1}).bytes())
 	b := mk(1)
 	vrt_Quiesce()
-	vrt_Assert(len(log.evs) == 1 && log.evs[0] == c11Ev{0, 0, key}, "first connection not announced to the join callback with its key")
+	evs0 := log.snapshot()
+	vrt_Assert(len(evs0) == 1 && evs0[0] == c11Ev{0, 0, key}, "first connection not announced to the join callback with its key")
 	k := 1
 	if vrt_Tier() > 0 {
 		k = 2
@@ -247,11 +268,12 @@ func VerifC11Schedules() {
 	vrt_Wake() // the command's timeout, if it is still waiting for the terminal's answer
 	vrt_Quiesce()
 	// callbacks per connection
+	evs := log.snapshot()
 	owner := -1
 	for id := 0; id < 2; id++ {
 		joins, refused, leaves := 0, 0, 0
 		leaveKey := ""
-		for _, e := range log.evs {
+		for _, e := range evs {
 			if e.conn != id {
 				continue
 			}
@@ -291,7 +313,7 @@ func VerifC11Schedules() {
 	cmdA, cmdB := wa-1, 0 // A answered its heartbeat
 	if wb > 0 {
 		cmdB = wb - 1
-		for _, e := range log.evs {
+		for _, e := range evs {
 			if e.conn == 1 && e.kind == 1 {
 				cmdB = wb // a refused connection gets no heartbeat reply
 			}
@@ -350,11 +372,12 @@ func VerifC11ConcurrentJoins() {
 	vrt_ConnPushRead(cs[firstB].conn, (&vFrame{id: 0x0002, phone: phone, serial: 1}).bytes())
 	vrt_ConnPushRead(cs[1-firstB].conn, (&vFrame{id: 0x0002, phone: phone, serial: 2}).bytes())
 	vrt_Quiesce()
+	evs := log.snapshot()
 	winner := -1
 	for id := 0; id < 2; id++ {
 		joins, refused, leaves := 0, 0, 0
 		leaveKey := "?"
-		for _, e := range log.evs {
+		for _, e := range evs {
 			if e.conn != id {
 				continue
 			}
